@@ -8,26 +8,26 @@ import (
 
 // yamlDoc returns a document: fully symbolic (shape 0) or one of the
 // part-concrete shapes the property names.
-func yamlDoc(n int) string {
+func vxYamlDoc(n int) string {
 	switch vxrt.Choice("yaml-shape", vxrt.Param("shapes", 7)) {
 	case 6: // line-structured around the storage tokens
-		return structText("doc", 2)
+		return vxStructText("doc", 2)
 	case 0:
 		return vxrt.Text("doc", vxrt.Len("doc-len", 0, n))
 	case 1: // multi-document stream
-		return "a: " + vxrt.Text("v1", 1) + "\n---\nb: " + vxrt.Text("v2", 1) + finalNL()
+		return "a: " + vxrt.Text("v1", 1) + "\n---\nb: " + vxrt.Text("v2", 1) + vxFinalNL()
 	case 2: // block scalar containing a terminator-like line
 		return "k: |\n  " + vxrt.Text("v1", 1) + "\n---\n"
 	case 3: // comment and key order
-		return "# " + vxrt.Text("c", 1) + "\nz: 1\na: 2" + finalNL()
+		return "# " + vxrt.Text("c", 1) + "\nz: 1\na: 2" + vxFinalNL()
 	case 4: // flow sequence that looks like an entry header
-		return "[TestA - 1]" + finalNL()
+		return "[TestA - 1]" + vxFinalNL()
 	default: // trailing blank lines
-		return "a: " + vxrt.Text("v1", 1) + "\n\n" + finalNL()
+		return "a: " + vxrt.Text("v1", 1) + "\n\n" + vxFinalNL()
 	}
 }
 
-func finalNL() string {
+func vxFinalNL() string {
 	if vxrt.Bool("final-newline") {
 		return "\n"
 	}
@@ -40,35 +40,35 @@ func H_C18_yaml() {
 	vxrt.CI(false)
 	dir := vxrt.Dir()
 	c := WithConfig(Dir(dir), Filename("f"))
-	doc := yamlDoc(vxrt.Param("n", 4))
-	vxrt.Assume(noCRAtEOL(doc))
+	doc := vxYamlDoc(vxrt.Param("n", 4))
+	vxrt.Assume(vxNoCRAtEOL(doc))
 	asBytes := vxrt.Bool("as-bytes")
 	var in any = doc
 	if asBytes {
 		in = []byte(doc)
 	}
-	empty := dumpDir(dir)
-	t1 := newT("TestA")
+	empty := vxDumpDir(dir)
+	t1 := vxNewT("TestA")
 	c.MatchYAML(t1, in)
 	t1.end()
 	if len(t1.errors) > 0 {
 		vxrt.Reach("invalid")
 		// the library said invalid: one error, nothing written
 		vxrt.Assert(len(t1.errors) == 1 && len(t1.logs) == 0, "C18:invalid-fails-once")
-		vxrt.Assert(vxrt.Eq(dumpDir(dir), empty), "C18:invalid-writes-nothing")
+		vxrt.Assert(vxrt.Eq(vxDumpDir(dir), empty), "C18:invalid-writes-nothing")
 		return
 	}
 	vxrt.Reach("valid")
 	vxrt.Assert(len(t1.logs) == 1, "C18:record")
-	file := readFile(dir + "/f.snap")
-	vxrt.Assert(vxrt.Eq(file, frame("TestA - 1", escapeRef(doc))), "C18:stored-body-is-escaped-document")
+	file := vxReadFile(dir + "/f.snap")
+	vxrt.Assert(vxrt.Eq(file, vxFrame("TestA - 1", vxEscapeRef(doc))), "C18:stored-body-is-escaped-document")
 	if vxrt.Param("known_K1", 1) == 1 {
-		vxrt.Assume(vxrt.Not(hasLine(doc, "/-/-/-/")))
+		vxrt.Assume(vxrt.Not(vxHasLine(doc, "/-/-/-/")))
 	}
-	got, _, err := refPrev("[TestA - 1]", dir+"/f.snap")
+	got, _, err := vxRefPrev("[TestA - 1]", dir+"/f.snap")
 	vxrt.Assert(err == nil && vxrt.Eq(unescapeEndChars(got), doc), "C18:document-reads-back-verbatim")
 	stamp := vxrt.FSStamp()
-	t2 := newT("TestA")
+	t2 := vxNewT("TestA")
 	c.MatchYAML(t2, in)
 	t2.end()
 	vxrt.Assert(len(t2.errors) == 0 && len(t2.logs) == 0, "C18:replay-passes")
